@@ -172,7 +172,9 @@ def r_configs(tier):
                 cf(2, 2, True, 100, "E0", "size"), cf(2, 2, 2, 100, "E0", "pad"),
                 cf(2, 2, 1, 100, "E0", "small"),                        # disabled by cache < n
                 cf(3, -1, 3, 100, "E0", "one"),
-                cf("I3", 2, True, 100, "E0", "tiny")]                 # cache ignored for INDEFINITE
+                cf("I3", 2, True, 100, "E0", "tiny"),                  # cache ignored for INDEFINITE
+                dict(cf("I3", 2, True, 100, "E0", "one"), postponed="unread"),    # lazily evaluated frame counts
+                dict(cf(2, 2, True, 100, "E0", "one"), postponed="unread", ctor="frd")]
     else:
         for loops in (2, -1):
             for cache in (True, 2):
@@ -188,6 +190,9 @@ def r_configs(tier):
         out.append(cf(4, 2, True, 100, "E0", "pad"))
         out.append(cf(4, -1, 4, 100, "E0", "one"))
         out.append(cf("I3", 2, True, 100, "E0", "small"))               # cache ignored for INDEFINITE
+        for n, loops, cache in ((2, 2, True), (3, -1, 3), ("I3", 2, True)):
+            for extra in (dict(ctor="frd"), dict(postponed="unread"), dict(postponed="read", ctor="frd")):
+                out.append(dict(cf(n, loops, cache, 100, "E0", "one"), **extra))
     return out
 
 
